@@ -36,6 +36,7 @@ type zzProvider struct {
 	err      error
 	calls    int
 	sni      string
+	answered int64 // instant the provider answered (UnixNano)
 	chain    [][]byte
 	isSigner bool
 }
@@ -48,7 +49,11 @@ func (p *zzProvider) GetCertificateWithContext(ctx context.Context, chi *tls.Cli
 	p.calls++
 	p.sni = chi.ServerName
 	if p.lazy && p.calls == 1 {
-		switch rt.Choose("provider", 3) {
+		choice := 2
+		if !zzAuthOnly() {
+			choice = rt.Choose("provider", 3)
+		}
+		switch choice {
 		case 0:
 			p.err = errors.New("zz: no certificate for this name")
 		case 1:
@@ -57,7 +62,7 @@ func (p *zzProvider) GetCertificateWithContext(ctx context.Context, chi *tls.Cli
 			p.chain = [][]byte{{0x30, 0x01}, {0x30, 0x02}}
 			na := zzInstant("notafter")
 			p.cert = &tls.Certificate{Certificate: p.chain, Leaf: &x509.Certificate{NotAfter: rt.TimeOf(na)}}
-			if rt.Fork("key-is-signer") {
+			if zzAuthOnly() || rt.Fork("key-is-signer") {
 				p.isSigner = true
 				p.cert.PrivateKey = p.sg
 			} else {
@@ -65,6 +70,9 @@ func (p *zzProvider) GetCertificateWithContext(ctx context.Context, chi *tls.Cli
 			}
 		}
 	}
+	// the provider takes time (it may run an ACME order): the instant it answers is a clock reading of its own,
+	// so that "the last clock reading" in the loader oracle is never earlier than the provider's answer
+	p.answered = rt.NanoOf(rt.Now())
 	return p.cert, p.err
 }
 func (p *zzProvider) OnHandshake(cipher.OnHandshakeFunc) {}
@@ -107,7 +115,11 @@ type zzKV struct {
 func (k *zzKV) Get(ctx context.Context, key []byte) ([]byte, error) {
 	k.keys = append(k.keys, append([]byte{}, key...))
 	w := k.w
-	switch rt.Choose("kv", 3) {
+	kv := 2
+	if !zzAuthOnly() {
+		kv = rt.Choose("kv", 3)
+	}
+	switch kv {
 	case 0:
 		k.err = errors.New("zz: kv unavailable")
 		return nil, k.err
@@ -116,7 +128,7 @@ func (k *zzKV) Get(ctx context.Context, key []byte) ([]byte, error) {
 	}
 	w.bound = true
 	b := &protocol.CustomHostname{}
-	full := rt.Bound("world") != 0 // reduced world: the binding always names a client and a token
+	full := zzFullWorld()
 	if !full || rt.Fork("binding-has-identity") {
 		w.boundHasNode = true
 		w.boundID = rt.U64("bound-id")
@@ -128,6 +140,9 @@ func (k *zzKV) Get(ctx context.Context, key []byte) ([]byte, error) {
 		w.boundHasTok = true
 		w.boundToken = zzBytesN("bound-tok", zzLenNear("bound-tok-len", len(w.callerToken)))
 		b.ClientToken = &protocol.ClientToken{Token: w.boundToken}
+	}
+	if zzAuthOnly() { // the binding names the caller
+		rt.Assume(rt.And(rt.EqBytes(w.boundToken, []byte(w.callerToken)), w.boundID == w.callerID, rt.EqString(w.boundAddr, w.callerAddr)))
 	}
 	val, err := b.MarshalVT()
 	rt.Assume(err == nil)
@@ -161,7 +176,11 @@ func zzVerifySolution(req *protocol.ProofOfWork, p pow.Parameters) (*pow.Decoded
 	zzPowDifficulty = rt.Int("pow-difficulty")
 	zzPowSameLen = rt.Bool("pow-subject-has-expected-length")
 	zzPowSubject = string(zzBytesN("pow-subject", len(subject)))
-	if rt.And(zzPowIntact, p.Difficulty == zzPowDifficulty, zzPowSameLen, rt.EqString(subject, zzPowSubject)) {
+	accept := rt.And(zzPowIntact, p.Difficulty == zzPowDifficulty, zzPowSameLen, rt.EqString(subject, zzPowSubject))
+	if zzAuthOnly() {
+		rt.Assume(accept)
+	}
+	if accept {
 		return &pow.Decoded{PubKey: key, Subject: subject}, nil
 	}
 	return nil, errors.New("zz: proof of work refused")
@@ -176,9 +195,13 @@ var (
 
 func zzNormalize(zone string) (string, error) {
 	zzNormArgs = append(zzNormArgs, zone)
-	zzNormFails = rt.Fork("normalize-fails")
+	zzNormFails = !zzAuthOnly() && rt.Fork("normalize-fails")
 	if zzNormFails {
 		return "", errors.New("zz: hostname does not normalize")
+	}
+	if zzAuthOnly() {
+		zzNormOut = "a.b.c" // a custom hostname that passes the apex/acme/two-dot screening
+		return zzNormOut, nil
 	}
 	zzNormOut = string(zzBytesN("host", rt.Bound("hostlen")))
 	return zzNormOut, nil
@@ -221,15 +244,27 @@ type zzWorld struct {
 	rawHost       string
 }
 
-// zzLenNear: a length near l (bound "lens" = 0: exactly l; 1: l-1, l, l+1; 2: every length 0..l+2).
+// Worlds (bound "world"): 1 = full (every caller shape, v1/v2, bindings with or without client/token);
+// 0 = reduced (caller without certificate or with a well-formed v2 subject; bindings always name a client and a
+// token); 2 = authorized-only: the caller is the bound client with a valid proof and the provider has a signing
+// certificate (used to sweep every digest length without multiplying it by the refusal paths, which the other
+// worlds cover).
+func zzFullWorld() bool { return rt.Bound("world") == 1 }
+func zzAuthOnly() bool  { return rt.Bound("world") == 2 }
+
+// zzLenNear: a length near l (bound "lens" = 0: exactly l; 1: l-1, l, l+1; 2: l-2 .. l+2).
 func zzLenNear(name string, l int) int {
+	n := l
 	switch rt.Bound("lens") {
-	case 0:
-		return l
 	case 1:
-		return l - 1 + rt.Choose(name, 3)
+		n = l - 1 + rt.Choose(name, 3)
+	case 2:
+		n = l - 2 + rt.Choose(name, 5)
 	}
-	return rt.Choose(name, l+3)
+	if n < 0 {
+		n = 0
+	}
+	return n
 }
 
 func zzBytesN(name string, n int) []byte {
@@ -247,11 +282,11 @@ func zzNewWorld() *zzWorld {
 
 	// --- the caller
 	ctx := context.Background()
-	full := rt.Bound("world") != 0 // reduced world: caller without certificate or with a well-formed v2 subject
-	caller := 0
+	full := zzFullWorld()
+	caller := 3
 	if full {
 		caller = rt.Choose("caller", 4)
-	} else {
+	} else if !zzAuthOnly() {
 		caller = 1 + 2*rt.Choose("caller", 2)
 	}
 	switch caller {
@@ -383,7 +418,9 @@ func ZZ_C30_Sign() {
 	proof := zzProof()
 	algo := rt.I32("algo")
 	var digest []byte
-	if rt.Bound("alldigests") != 0 {
+	if rt.Bound("alldigests") == 2 { // full-world obligation: the digest dimension is covered by the other one
+		digest = rt.BytesN("digest", 32)
+	} else if rt.Bound("alldigests") == 1 {
 		digest = rt.Bytes("digest", 65)
 	} else {
 		lens := []int{0, 31, 32, 33, 48, 63, 64, 65}
@@ -426,8 +463,9 @@ func ZZ_C30_Sign() {
 }
 
 // ZZ_C30_Loader: what the loader hands to the cache. A result carrying a certificate has a time-to-live that is
-// safe with respect to the last clock reading made after the provider answered; the certificate asked for is the
-// one of the cache key.
+// safe with respect to the latest instant known when the loader returns (its own last clock reading or the
+// instant the provider answered, whichever is later: the entry is cached no earlier than that); the certificate
+// asked for is the one of the cache key.
 func ZZ_C30_Loader() {
 	host := string(rt.BytesN("host", 3))
 	ctx := context.Background()
